@@ -317,6 +317,12 @@ def items (k : Bool) : Ast → List Item
   | .print letters path ms raw pre suf _ _ => [.node (tplOf letters path ms raw pre suf)]
   | .if_ c thn he els =>
     [.node (.cond (condSpec c) (ifChildren (assemble k (itemsL k thn)) he (assemble k (itemsL k els))))]
+  | .ifok var okv hlp args ins _ nt thn he els =>
+    [.node (.condOK
+      { varV := var, varOK := okv, ins := ins,
+        cd := { l := okv, r := if nt then lit "true" else [], staticL := false, staticR := nt,
+                op := if nt then .nq else .unk, hlp := hlp, hlpArg := args.map argOf, lc := 0 } }
+      (ifChildren (assemble k (itemsL k thn)) he (assemble k (itemsL k els))))]
   | .ternary letters c t f =>
     let pt := parseChain t
     let pf := parseChain f
@@ -446,6 +452,9 @@ def inClass : Ast → Bool
     lettersOK letters && isOperand path && modsOK ms && fixOK pre && fixOK suf &&
       (pre.isEmpty || kwIn preKW "prefix" "pfx") && (suf.isEmpty || kwIn sufKW "suffix" "sfx")
   | .if_ c thn _ els => condOK c && inClassL thn && runsOKb thn && inClassL els && runsOKb els
+  | .ifok var okv hlp args ins _ _ thn _ els =>
+    isWord var && isWord okv && isWord hlp && args.all (fun a => isOperand a) && (ins.isEmpty || isWord ins) &&
+      inClassL thn && runsOKb thn && inClassL els && runsOKb els
   | .ternary letters c t f => lettersOK letters && condOK c && (c.hlp.isEmpty || c.op.isEmpty) && altOK t && altOK f
   | .switch arg cases hd at_ dflt =>
     (arg.isEmpty || isPath arg) && casesOK arg cases && (!hd || at_ ≤ cases.length) && inClassL dflt && runsOKb dflt
